@@ -23,6 +23,12 @@ from . import net, prims
 
 _installed = {}
 
+# the real classes, captured before the process-wide replacement below
+_REAL_TH = {n: getattr(_th, n) for n in ('Event', 'Lock', 'RLock', 'Condition', 'Semaphore',
+                                         'BoundedSemaphore', 'Barrier')}
+_REAL_Q = {n: getattr(_q, n) for n in ('Queue', 'LifoQueue', 'PriorityQueue', 'SimpleQueue')}
+_REAL_SLEEP = _time.sleep
+
 
 class _SimThreadingModule:
     """Stand-in for `import threading` inside bridge_env modules."""
@@ -61,23 +67,23 @@ def _replacements():
     thm = _SimThreadingModule()
     qm = _SimQueueModule()
     by_id = {
-        id(_th.Event): prims.SimEvent,
-        id(_th.Lock): prims.SimLock,
-        id(_th.RLock): prims.SimRLock,
-        id(_th.Condition): prims.SimCondition,
-        id(_th.Semaphore): prims.SimSemaphore,
-        id(_th.BoundedSemaphore): prims.SimBoundedSemaphore,
-        id(_th.Barrier): prims.SimBarrier,
-        id(_q.Queue): prims.SimQueue,
-        id(_q.LifoQueue): prims.SimLifoQueue,
-        id(_q.PriorityQueue): prims.SimPriorityQueue,
-        id(_q.SimpleQueue): prims.SimSimpleQueue,
+        id(_REAL_TH['Event']): prims.SimEvent,
+        id(_REAL_TH['Lock']): prims.SimLock,
+        id(_REAL_TH['RLock']): prims.SimRLock,
+        id(_REAL_TH['Condition']): prims.SimCondition,
+        id(_REAL_TH['Semaphore']): prims.SimSemaphore,
+        id(_REAL_TH['BoundedSemaphore']): prims.SimBoundedSemaphore,
+        id(_REAL_TH['Barrier']): prims.SimBarrier,
+        id(_REAL_Q['Queue']): prims.SimQueue,
+        id(_REAL_Q['LifoQueue']): prims.SimLifoQueue,
+        id(_REAL_Q['PriorityQueue']): prims.SimPriorityQueue,
+        id(_REAL_Q['SimpleQueue']): prims.SimSimpleQueue,
         id(_time): tm,
         id(_random): rnd,
         id(_socket): sk,
         id(_th): thm,
         id(_q): qm,
-        id(_time.sleep): tm.sleep,
+        id(_REAL_SLEEP): tm.sleep,
         id(_time.time): tm.time,
         id(_time.monotonic): tm.monotonic,
         id(_socket.socket): net.SimSocket,
@@ -87,7 +93,7 @@ def _replacements():
         id(_random.randint): rnd.randint,
         id(_random.sample): rnd.sample,
     }
-    return by_id, rnd
+    return by_id, rnd, tm
 
 
 def install(repo_path=None):
@@ -110,7 +116,7 @@ def install(repo_path=None):
             # optional modules must not break the harness; the network modules are checked below
             pass
     mods.append(bridge_env)
-    by_id, rnd = _replacements()
+    by_id, rnd, tm = _replacements()
     replaced = []
     for mod in mods:
         g = vars(mod)
@@ -125,6 +131,7 @@ def install(repo_path=None):
         if mod.__name__.startswith('bridge_env.network_bridge'):
             g['print'] = _silent_print
     prims.patch_thread_class()
+    _patch_process_wide(tm)
     logging.disable(logging.CRITICAL)
     from bridge_env.network_bridge import server, client, socket_interface
     _installed.update(server=server, client=client, socket_interface=socket_interface,
@@ -134,3 +141,38 @@ def install(repo_path=None):
 
 def _silent_print(*a, **k):
     pass
+
+
+def _patch_process_wide(tm):
+    """Replace the primitive classes in the `threading` and `queue` modules themselves (and
+    `time.sleep`), so that code which reaches them some other way than through a bridge_env module
+    global -- a function-local `import threading`, or a standard-library component built on them
+    such as concurrent.futures.ThreadPoolExecutor (pure Python on threading.Thread / Lock /
+    Semaphore / Condition and queue.SimpleQueue) -- is simulated too instead of blocking a real
+    thread that holds the baton.  Outside a simulated thread the replacements behave as
+    single-threaded objects (prims._NullSim).  Only ever done in worker / replay processes, which
+    run nothing but simulations."""
+    _th.Event = prims.SimEvent
+    _th.Lock = prims.SimLock
+    _th.RLock = prims.SimRLock
+    _th.Condition = prims.SimCondition
+    _th.Semaphore = prims.SimSemaphore
+    _th.BoundedSemaphore = prims.SimBoundedSemaphore
+    _th.Barrier = prims.SimBarrier
+    _q.Queue = prims.SimQueue
+    _q.LifoQueue = prims.SimLifoQueue
+    _q.PriorityQueue = prims.SimPriorityQueue
+    _q.SimpleQueue = prims.SimSimpleQueue
+
+    def sleep(d):
+        from .core import current_sim
+        s = current_sim()
+        if s is not None and s.active and s.in_sim_thread():
+            return tm.sleep(d)
+        return _REAL_SLEEP(d)
+    _time.sleep = sleep
+    cft = sys.modules.get('concurrent.futures.thread')
+    if cft is not None and hasattr(cft, '_global_shutdown_lock'):
+        # created at import time as a real lock; submit() performs queue operations (yield
+        # points) while holding it
+        cft._global_shutdown_lock = prims.SimLock()
